@@ -262,6 +262,9 @@ class _Run:
             tty = W.SimTTY(w, "tty", cols, rows)
             term = self.term = RefTerm(cols, rows, bce=True)
             out = W.SimTTYOut(w, tty, term)
+            out.bufsize = int(cfg.get("outbuf", 0))
+            if out.bufsize:
+                res.probe("buffered_output_stream")
             screen = self.screen = prd.Screen(input=W.SimTTYIn(tty), output=out)
             screen.back_color_erase = cfg.get("bce", True)
             screen.fg_bright_is_bold = cfg.get("bright_is_bold", False)
@@ -541,6 +544,7 @@ class DisplayEngine(Engine):
             "bce": rng.random() < 0.7,
             "bright_is_bold": rng.random() < 0.5,
             "bright_is_blink": rng.random() < 0.3,
+            "outbuf": rng.choice([0, 0, 64, 1 << 16]),
         }
         ops = []
         prev = None
